@@ -1263,11 +1263,49 @@ func (r *Run) checkChunkReducer(fn *ssa.Function, call *ssa.Call, mapF, redF *ss
 }
 
 func lowIsIdxTimesBatch(v ssa.Value, idx *ssa.Parameter) bool {
+	isBatch := func(x ssa.Value) bool { return dependsOnField(x, "maxBatchSize") }
+	// the bounds computed by a helper of the module (`from, to := chunkBounds(i, size, n)`): the
+	// result is the product of two of its parameters, bound to the chunk index and the batch size
+	if ex, ok := v.(*ssa.Extract); ok {
+		call, ok := ex.Tuple.(*ssa.Call)
+		if !ok {
+			return false
+		}
+		sc := call.Call.StaticCallee()
+		if sc == nil || !inModule(sc) || sc.Blocks == nil || len(returnsOf(sc)) == 0 {
+			return false
+		}
+		argOf := func(x ssa.Value) ssa.Value {
+			for i, p := range sc.Params {
+				if ssa.Value(p) == x && i < len(call.Call.Args) {
+					return call.Call.Args[i]
+				}
+			}
+			return nil
+		}
+		for _, ret := range returnsOf(sc) {
+			rv := retVals(ret)
+			if ex.Index >= len(rv) {
+				return false
+			}
+			bo, ok := unwrap(rv[ex.Index]).(*ssa.BinOp)
+			if !ok || bo.Op != token.MUL {
+				return false
+			}
+			ax, ay := argOf(bo.X), argOf(bo.Y)
+			if ax == nil || ay == nil {
+				return false
+			}
+			if !((ax == ssa.Value(idx) && isBatch(ay)) || (ay == ssa.Value(idx) && isBatch(ax))) {
+				return false
+			}
+		}
+		return true
+	}
 	bo, ok := v.(*ssa.BinOp)
 	if !ok || bo.Op != token.MUL {
 		return false
 	}
-	isBatch := func(x ssa.Value) bool { return dependsOnField(x, "maxBatchSize") }
 	return (bo.X == ssa.Value(idx) && isBatch(bo.Y)) || (bo.Y == ssa.Value(idx) && isBatch(bo.X))
 }
 
